@@ -64,7 +64,7 @@ func firstPacketBody(bin []byte, tag int) []byte {
 func c45SigKeys(p *keyPool) ([]*sigKey, openpgp.EntityList) {
 	sigKeysOnce.Do(func() {
 		sigRing = append(sigRing, p.pubRing...)
-		for _, k := range p.keys {
+		for _, k := range p.baseKeys() {
 			if k.fromGo && k.name != "gorsa0" {
 				continue
 			}
